@@ -60,7 +60,9 @@ class Variables:
 
     def inline_variables(self, sql: str) -> str:
         for name, value in self._variables.items():
-            sql = re.sub(rf"\${name}", value, sql, flags=re.IGNORECASE)
+            # \b so that $var1 isn't replaced inside $var10, and a function as the replacement so that
+            # backslashes in the value aren't processed as regex escapes
+            sql = re.sub(rf"\${re.escape(name)}\b", lambda _m, value=value: value, sql, flags=re.IGNORECASE)
 
         if remaining_variables := re.search(r"(?<!\$)\$\w+", sql):
             raise snowflake.connector.errors.ProgrammingError(
